@@ -2,10 +2,10 @@
 PP = '_ZN5gdstk7Polygon'
 OBLIGATIONS = [
     Ob('polygon_maps', 'C10/poly.c', [PP + '9translateENS_4Vec2E', PP + '5scaleENS_4Vec2ES1_', PP + '6rotateEdNS_4Vec2E', PP + '9transformEdbdNS_4Vec2E', PP + '6mirrorENS_4Vec2ES1_'],
-       model='ie', defines={'REAL_TOL': 1, 'IE_BITS': 14, 'REFL': 0, 'ROT0': 0},
-       what='Polygon::translate/scale/rotate/transform/mirror: every vertex image equals the documented affine map (cos/sin free symbols)',
+       model='ie', defines={'REAL_TOL': 1, 'IE_BITS': 14, 'REFL': 0, 'ROT0': 0, 'QUARTER_TURN_CONTRACT': 1}, stubs=['_ZN5gdstk24is_multiple_of_pi_over_2EdRl'],
+       what='Polygon::translate/scale/rotate/transform/mirror: every vertex image equals the documented affine map (cos/sin free symbols; additionally every exact quarter turn -4..4 with its exact cosine/sine, should the code special-case multiples of pi/2)',
        bound='2 vertices, coordinates / centres / factors in -3..3, magnification -3..3, (c,s) in -2..2; mirror lines axis-parallel or diagonal through any point',
-       variants=[{'OP': 0}, {'OP': 1}, {'OP': 2}, {'OP': 4}] + [{'OP': 3, 'REFL': f, 'ROT0': z} for f in (0, 1) for z in (0, 1)], unwind=6, timeout=300, real_stub_syms=['cos', 'sin', 'sincos'], nvec=40),
+       variants=[{'OP': 0}, {'OP': 1}, {'OP': 2}, {'OP': 4}] + [{'OP': 3, 'REFL': f, 'ROT0': z} for f in (0, 1) for z in (0, 1, 2)] + [{'OP': 2, 'ROT0': 2}], unwind=11, timeout=300, real_stub_syms=['cos', 'sin', 'sincos'], nvec=40),
     Ob('label_reference_placement', 'C10/placement.c', ['_ZN5gdstk5Label9transformEdbdNS_4Vec2E', '_ZN5gdstk9Reference9transformEdbdNS_4Vec2E'],
        model='ie', defines={'REAL_TOL': 1, 'IE_BITS': 14},
        what='Label::transform / Reference::transform: origin mapped, rotation sign-flipped under reflection and added, magnifications multiplied, reflection xor',
